@@ -204,7 +204,8 @@ func TestVerifC11(t *testing.T) {
 	// THAT CA's prefix (issuer keys of the URLs from an independent table), whatever the issuer's
 	// own CA is — accounts and challenge tokens of a test/staging CA never land in production's
 	caTable := [][2]string{{"https://ca.example/dir", "ca.example-dir"}, {"https://staging.ca.example/directory", "staging.ca.example-directory"},
-		{"https://acme.other.example/v2/DV90", "acme.other.example-v2-DV90"}, {"https://ca.example/dir/", "ca.example-dir"}, {"https://ca.example", "ca.example"}}
+		{"https://acme.other.example/v2/DV90", "acme.other.example-v2-DV90"}, {"https://ca.example/dir/", "ca.example-dir"}, {"https://ca.example", "ca.example"},
+		{"https://ca.example:8443/dir", "ca.example:8443-dir"}, {"https://ca.example:9443/dir", "ca.example:9443-dir"}, {"https://[2001:db8::1]:14000/dir", "[2001:db8::1]:14000-dir"}}
 	for _, ca := range caTable {
 		nsCA := prefixACME + "/" + StorageKeys.Safe(ca[1])
 		if got := am.storageKeyCAPrefix(ca[0]); got != nsCA {
